@@ -1,5 +1,6 @@
 import ServiceModel.Proofs.Reachable
 import ServiceModel.Properties.C08
+import ServiceModel.Proofs.NoSlash
 /-!
 # C12 — Batch bookkeeping and module callbacks are exact (state part)
 -/
@@ -95,5 +96,40 @@ theorem accepted_response_counts (s : State) (r : ReqId) (pv : Addr) (code : Nat
       · rw [if_neg hc]
         refine ⟨{ x with respN := x.respN + 1 }, ?_, rfl, rfl, rfl, fun h => absurd h hc, fun _ => ⟨rfl, he1⟩⟩
         simp [setCtx]
+
+/-- At expiry a batch is completed (event, and callback for a module context) exactly when it was not completed
+    before — i.e. when its responses had not already completed it: "otherwise when its expiry block ends", and
+    never a second time. -/
+theorem expiry_completes_iff_not_yet_completed (s : State) (c : CtxId) (x : Ctx) :
+    (.ev "complete_batch" c ∈ (expirePending s c x).1.effs ↔ x.bstate ≠ .completed) ∧
+    (expirePending s c x).2.bstate = .completed := by
+  by_cases hb : x.bstate ≠ .completed
+  · unfold expirePending
+    rw [if_pos hb]
+    dsimp only
+    refine ⟨⟨fun _ => hb, fun _ => ?_⟩, rfl⟩
+    apply List.mem_append_right
+    unfold completeBatch
+    simp
+  · have hc : x.bstate = .completed := by
+      cases hh : x.bstate with
+      | completed => rfl
+      | running => rw [hh] at hb; simp at hb
+    unfold expirePending
+    rw [if_neg hb]
+    refine ⟨⟨(fun h => by cases h), (fun h => absurd hc h)⟩, hc⟩
+
+/-- … and when the batch had been completed by its responses, the expiry handler emits nothing for it. -/
+theorem expiry_of_completed_batch_is_silent (s : State) (c : CtxId) (x : Ctx) (hb : x.bstate = .completed) :
+    (expirePending s c x).1.effs = [] ∧ (expirePending s c x).1.s = s := by
+  unfold expirePending
+  rw [if_neg (by simp [hb])]
+  exact ⟨rfl, rfl⟩
+
+/-- The settlement of the expired requests themselves only moves or burns coins: the completion event and callback
+    of the handler are the ones of `completeBatch`, emitted once. -/
+theorem expiry_settlements_emit_no_events (s : State) (x : Ctx) (ids : List ReqId) :
+    ∀ e ∈ (foldH (expireReq x) s ids).effs, e.isMoney = true :=
+  foldH_effects (expireReq x) (fun e => e.isMoney = true) (expireReq_effects x) ids s
 
 end SM.C12
